@@ -131,6 +131,19 @@ def run_case(a):
             if r.rc == 0 and not r.timed_out:
                 for (f, kind) in diff_kind(base, common.read_outputs(os.path.join(root, "out_build"))):
                     viol.append(("C13 entry-path=build-script changes-%s file=%s" % (kind, f), "generate_at_build_time with the same settings: %s differs from the CLI's (%s)" % (f, kind), wit({"entry": "build"})))
+                # ... and a second, identical build-script run into the same directory leaves the same set of files with the same content
+                first = common.read_outputs(os.path.join(root, "out_build"))
+                r2, _ = proj.build_generate(drv, root, hash_seed=hs0 + 3)
+                stats["runs"] += 1
+                if r2.rc == 0 and not r2.timed_out:
+                    second = common.read_outputs(os.path.join(root, "out_build"))
+                    for f in sorted(set(first) | set(second)):
+                        if f == ".typecache":
+                            continue
+                        if f not in first or f not in second:
+                            viol.append(("C13 entry-path=build-script second-run-file-set file=%s" % f, "%s exists only after the %s of two identical build-script runs" % (f, "first" if f in first else "second"), wit({"entry": "build"})))
+                        elif f.endswith(".ts") and first[f] != second[f]:
+                            viol.append(("C13 entry-path=build-script second-run-changes file=%s" % f, "%s differs between two identical build-script runs" % f, wit({"entry": "build"})))
             elif not r.timed_out:
                 viol.append(("C13 entry-path=build-script run-fails", "rc=%s %s" % (r.rc, (r.out + r.err)[-200:]), wit({"entry": "build"})))
             try:
